@@ -33,6 +33,7 @@ BIN="$SCR/dtnmc"
 export VERIF_SCRATCH="$SCR/work"; mkdir -p "$VERIF_SCRATCH"
 export VERIF_BIN="$BIN" VERIF_SRC="$SCR/src"
 if [ -n "${VERIF_KEEP:-}" ]; then cp "$BIN" /dev/shm/dtnmc-keep; fi
+if [ "$PROP" = BENCH ]; then "$BIN" bench "$@"; exit $?; fi
 "$BIN" "$PROP" "$@"
 rc=$?
 exit $rc
